@@ -1646,7 +1646,8 @@ func callBin(n *node) {
 			} else {
 				defType = funcType.In(rcvrOffset + i)
 			}
-			if getMapType != nil {
+			if getMapType != nil && defType.Kind() == reflect.Interface && defType.NumMethod() == 0 {
+				// The special interfaces only apply to arguments passed as interface{}.
 				if rt := getMapType(c.typ); rt != nil {
 					defType = rt
 				}
